@@ -35,6 +35,15 @@ class ExternMixin:
             return SV('func', FuncVal(builtin='filewrite', bound=base, name='write'))
         return super().getattr_value(base, name, node, default)
 
+    def bi_next(self, args, kw, node):
+        a = args[0]
+        if a.k == 'opq' and a.x == 'rowgen':
+            # X-NP: the next row of the chunk stream (exhaustion is excluded by the row-count contract of the chunk generator)
+            return SV('opq', self.sym('row', OPQ), 'row')
+        if a.k == 'gen':
+            return SV('opq', self.sym('row', OPQ), 'row')
+        return super().bi_next(args, kw, node)
+
     def bi_filewrite(self, args, kw, node):
         return self.file_write(None, args)
 
@@ -152,7 +161,92 @@ class ExternMixin:
             raise Unsupported('re.compile of a symbolic pattern')
         return SV('const', ('regex', args[0].t))
 
-    externals = {'re.compile': lambda self, args, kw, node: self.ext_re_compile(args, kw, node)}
+    def ext_np_zeros(self, args, kw, node):
+        """X-NP4: np.zeros(n, dtype=d) is a fresh array of n rows of dtype d (owned by the writer)"""
+        r = SV('opq', self.sym('zeros', OPQ), 'chunk')
+        self.assume(self.ufunc('chunk_n_rows', OPQ, INT)(r.t) == self.as_int(args[0]))
+        if 'dtype' in kw:
+            self.assume(self.ufunc('chunk_sdtype', OPQ, OPQ)(r.t) == self.as_opq(kw['dtype']))
+        self.st.ghost[('fresh_chunk', str(r.t))] = True
+        return r
+
+    def ext_np_dtype(self, args, kw, node):
+        """X-NP3: np.dtype(x) of a dtype-like is that dtype; np.dtype([(name, dt[, width]), ...]) is a structured dtype with
+        exactly these fields, in this order, with these element dtypes and sub-array widths"""
+        a = args[0]
+        if a.k == 'list':
+            r = SV('opq', self.sym('sdtype', OPQ), 'sdtype')
+            fd = self.ufunc('field_dtype', OPQ, SEQ, OPQ)
+            fw = self.ufunc('field_width', OPQ, SEQ, INT)
+            names = []
+            for it in self.iter_concrete(a):
+                parts = list(it.t)
+                nm = self.as_seq(parts[0])
+                names.append(parts[0])
+                self.assume(fd(r.t, nm) == self.as_opq(parts[1]))
+                self.assume(fw(r.t, nm) == (self.as_int(parts[2]) if len(parts) > 2 else z3.IntVal(0)))
+            self.assume(self.ufunc('sdtype_names', OPQ, OPQ)(r.t) == self.as_opq(SV('tuple', tuple(names))))
+            return r
+        return SV('opq', self.ufunc('np_dtype', OPQ, OPQ)(self.as_opq(a)), 'dtype')
+
+    externals = {'re.compile': lambda self, args, kw, node: self.ext_re_compile(args, kw, node),
+                 'np.zeros': lambda self, args, kw, node: self.ext_np_zeros(args, kw, node),
+                 'np.dtype': lambda self, args, kw, node: self.ext_np_dtype(args, kw, node)}
+
+    def opq_call(self, recv, name, args, kw, node):
+        tag = recv.x
+        if name == 'byteswap' and (args or kw):
+            # X-NP7: byteswap() copies; byteswap(True) / byteswap(inplace=True) swaps the caller's buffer in place
+            flag = args[0] if args else kw.get('inplace', VB(False))
+            if not z3.is_false(z3.simplify(self.truth(flag))):
+                self.on_mutating_call(recv, name, args, kw, node)
+        if tag == 'source' and name == '__getitem__' and not self.in_spec:
+            # X-H5 / dict: looking up a dataset that is not there raises KeyError
+            if self.branch(self.ufunc('source_missing', OPQ, SEQ, BOOL)(recv.t, self.as_seq(args[0]))):
+                raise PyRaise('KeyError')
+        r = super().opq_call(recv, name, args, kw, node)
+        if tag == 'sarray' and name == '__getitem__' and args and args[0].k == 'slice':
+            # X-NP1: A[a:b] of a structured array (0 <= a <= b <= len) is a view of rows a..b-1 in A's dtype
+            lo, hi = args[0].t
+            n = self.ufunc('sarray_shape0', OPQ, INT)(recv.t)
+            a = self.as_int(lo) if lo.k != 'none' else z3.IntVal(0)
+            b = self.as_int(hi) if hi.k != 'none' else n
+            inb = z3.And(0 <= a, a <= b, b <= n)
+            self.assume(z3.Implies(inb, z3.And(self.ufunc('chunk_first_row', OPQ, INT)(r.t) == a,
+                                               self.ufunc('chunk_n_rows', OPQ, INT)(r.t) == b - a)))
+            self.assume(self.ufunc('chunk_sdtype', OPQ, OPQ)(r.t) == self.ufunc('sarray_dtype', OPQ, OPQ)(recv.t))
+            if not self.in_spec:
+                self.oblige('slice-in-bounds[X-NP1]', inb, node, aux=True, info='array slice must be inside the array for the row-exact view axiom')
+        if tag in ('ndarray',) and name == '__getitem__' and args and args[0].k == 'slice':
+            # X-NP1: D[a:b] of a dataset holds rows a.. of D (numpy clamps; exactness of the row count is the in-bounds obligation of the caller)
+            lo, hi = args[0].t
+            a = self.as_int(lo) if lo.k != 'none' else z3.IntVal(0)
+            self.assume(self.ufunc('nd_first', OPQ, INT)(r.t) == self.ufunc('nd_first', OPQ, INT)(recv.t) + a)
+            self.assume(self.ufunc('nd_base', OPQ, OPQ)(r.t) == self.ufunc('nd_base', OPQ, OPQ)(recv.t))
+        if tag == 'source' and name == '__getitem__':
+            self.assume(self.ufunc('nd_first', OPQ, INT)(r.t) == 0)
+            self.assume(self.ufunc('nd_base', OPQ, OPQ)(r.t) == r.t)
+        if tag == 'chunk' and name == '__setitem__':
+            # filling one field of the writer's own chunk: row count and dtype stay; that field now holds the assigned rows;
+            # the other fields keep what they held
+            for f_, srt in (('chunk_n_rows', INT), ('chunk_sdtype', OPQ)):
+                g = self.ufunc(f_, OPQ, srt)
+                self.assume(g(r.t) == g(recv.t))
+            key, val = args[0], args[1]
+            ff = self.ufunc('chunk_field_first', OPQ, SEQ, INT)
+            fs = self.ufunc('chunk_field_src', OPQ, SEQ, OPQ)
+            k = self.as_seq(key)
+            if val.k == 'opq':
+                self.assume(ff(r.t, k) == self.ufunc('nd_first', OPQ, INT)(val.t))
+                self.assume(fs(r.t, k) == self.ufunc('nd_base', OPQ, OPQ)(val.t))
+                self.assume(self.ufunc('chunk_first_row', OPQ, INT)(r.t) == self.ufunc('nd_first', OPQ, INT)(val.t))
+            prev = self.st.ghost.setdefault(('chunk_fields', ), {})
+            done = prev.get(str(recv.t), [])
+            for pk in done:
+                self.assume(z3.Implies(pk != k, z3.And(ff(r.t, pk) == ff(recv.t, pk), fs(r.t, pk) == fs(recv.t, pk))))
+            prev[str(r.t)] = done + [k]
+        return r
+
 
     def call_builtin_method(self, recv, name, args, kw, node):
         if recv.k == 'const' and isinstance(recv.t, tuple) and recv.t and recv.t[0] == 'regex' and name in ('fullmatch', 'match', 'search'):
